@@ -1,7 +1,7 @@
 SPECIFICATION Spec
 CONSTANTS
   Caller = {c1, c2, c3}
-  Buf = {b1, b2, b3, b4}
+  Buf = {b1, b2, b3}
   MaxCalls = 2
   Deviation = {}
 INVARIANT Inv
